@@ -1216,7 +1216,7 @@ def run(ctx):
     rule_in_sample(ctx, repo)
     rule_time_axis(ctx, repo)
     rule_forwarding(ctx, repo)
-    # instance counts on commit 132f3d5 (+ fix 7857d98): R1 45, R2 52, R3 12, R4 8, R5 14, R6 88
+    # instance counts on commit 132f3d5 (+ fix 7857d98): R1 46, R2 76, R3 20, R4 8, R5 14, R6 88
     ctx.floor("R1", 45)
     ctx.floor("R2", 40)
     ctx.floor("R3", 8)
